@@ -88,7 +88,7 @@ class Proj:
         return os.path.join(self.bld, 'Makefile' if self.backend == 'make'
                             else 'build.ninja')
 
-    def tool(self, targets=(), env=None, shim=None):
+    def tool(self, targets=(), env=None, shim=None, timeout=300):
         """run the backend tool (make / reference ninja)"""
         e = dict(self.env)
         if env:
@@ -100,7 +100,7 @@ class Proj:
             e.update(shim)
         cmd = (['make'] if self.backend == 'make' else
                [os.path.join(BIN, 'ninja')]) + list(targets)
-        return run(cmd, cwd=self.bld, env=e)
+        return run(cmd, cwd=self.bld, env=e, timeout=timeout)
 
     def tick(self):
         tick(self.src, self.bld)
